@@ -193,6 +193,8 @@ def run_thunk(model: Model, thunk, real_classifier=False, fuel_factor=40):
     """thunk(interp) -> value; explores all paths; returns [Out].  With real_classifier the type of constructed
     objects comes from interpreting Pregex.__infer_type itself instead of forking over all tags."""
     from ..interp import Hooks as _PlainHooks
+    from ..absdom import layout as _layout
+    _layout(model)               # results are read through the probed instance layout (pattern_of)
     outs = []
     stack = [[]]
     while stack:
@@ -272,3 +274,34 @@ def same_structure(got: str, ref: str):
     if a == b:
         return True, ""
     return False, f"emitted {got!r} does not have the structure of the fully parenthesised composition {ref!r}"
+
+
+def same_object_twice(ctx, model: Model, rule: str, operand_specs):
+    """A pattern object passed at two argument positions of one variadic class form stands for two occurrences of
+    its pattern - exactly like two separately built equal operands (operands are never de-duplicated by identity or
+    by equality: each occurrence contributes its own text and its own capturing groups).  Returns the case count."""
+    n = 0
+    forms = [(c, m, k) for c, (m, _, k) in CLASS_FORMS.items() if k in ("fold", "fold2")]
+    for cname, modname, kind in forms:
+        ci = model.cls(modname, cname)
+        init = ci.find_method("__init__")
+        for spec in operand_specs:
+            for shape in ("x, 'q', x", "x, x", "'q', x, 'r', x"):
+                def shared(it, spec=spec, shape=shape):
+                    x = mk(model, spec)
+                    return it.construct(ci, {"x, 'q', x": [x, "q", x], "x, x": [x, x], "'q', x, 'r', x": ["q", x, "r", x]}[shape])
+
+                def separate(it, spec=spec, shape=shape):
+                    x, y = mk(model, spec), mk(model, spec)
+                    return it.construct(ci, {"x, 'q', x": [x, "q", y], "x, x": [x, y], "'q', x, 'r', x": ["q", x, "r", y]}[shape])
+                a = sorted((o.text if o.kind == "return" else "!" + o.exc.name) for o in run_thunk(model, shared, real_classifier=True, fuel_factor=200))
+                b = sorted((o.text if o.kind == "return" else "!" + o.exc.name) for o in run_thunk(model, separate, real_classifier=True, fuel_factor=200))
+                inp = f"{cname}({shape}) with x = {spec[0]}"
+                ctx.instance(rule, key=("same object twice", inp), sample=f"{inp}: {a[:1]}")
+                n += 1
+                if a != b:
+                    ctx.violation(rule, init.relpath, f"{cname}.__init__", "the same operand object at two positions",
+                                  "passing one pattern object twice does not give what two equal operands give (an occurrence was "
+                                  "dropped or merged: fewer capturing groups, later groups renumbered)", init.node.lineno, inp=inp,
+                                  detail=f"same object: {a[:2]}; two equal objects: {b[:2]}")
+    return n
